@@ -1,7 +1,7 @@
 (* Reform.v — Calendar::reforming: accepted exactly for 1830692 <= r <= 2147439588, returning exactly the
    calendar value described from the specification ([cal_of (CR r)]), with the right error elsewhere. *)
 From JV Require Import Sem Gen Spec SpecX.
-From JV.Proofs Require Import SpecFacts GapFacts Cal Cmp Inner Year MonthGeom Shape Month MonthSpec SpecSums Walk SpecOrd SpecInv AtJdn AtYmd.
+From JV.Proofs Require Import SpecFacts GapFacts Cal Cmp Inner Year MonthGeom Shape Month MonthSpec SpecSums Walk SpecOrd SpecInv AtJdn AtYmd Meq.
 Open Scope Z_scope.
 Ltac Zify.zify_post_hook ::= Z.to_euclidean_division_equations.
 
@@ -31,63 +31,88 @@ Proof.
   destruct (glabel j) as [[y m] d]. f_equal; lia.
 Qed.
 
+(* The proof first derives every arithmetic fact about the two boundary labels, the adjusted ordinal and the three
+   bands of r, WITHOUT looking at the generated function; then [rf_norm] evaluates the function under those facts,
+   whatever the order and nesting of its tests (each comparison the facts decide is replaced by its value, each call
+   by its characterisation, each remaining test is split), and the leaves are closed by computation and lia. *)
+Ltac rf_ifd :=
+  match goal with
+  | |- context[if ?c then _ else _] =>
+    lazymatch c with
+    | context[if _ then _ else _] => fail
+    | context[match _ with _ => _ end] => fail
+    | _ => destruct c eqn:?
+    end
+  end.
+
 Theorem reforming_ok r : in_i32 r -> Calendar_reforming r = Ret (reforming_spec r).
 Proof.
   intros Hr. unfold Calendar_reforming, reforming_spec. unfold i32_checked_sub.
   destruct (Z.eq_dec r i32_min) as [->|NMin].
   { rewrite chko_none by (unfold i32_min, i32_max; lia). reflexivity. }
-  rewrite chko_ok by range. cbv zeta.
+  rewrite chko_ok by range.
   change Calendar_JULIAN with (cal_of CJ). change Calendar_GREGORIAN with (cal_of CG).
-  rewrite at_jdn_ok by (cbn; auto; range). cbn [bind]. rewrite at_jdn_ok by (cbn; auto). cbn [bind].
+  assert (AJ1 : Calendar_at_jdn (cal_of CJ) (r - 1) = Ret (date_of CJ (r - 1))) by (apply at_jdn_ok; [exact I|range]).
+  assert (AG1 : Calendar_at_jdn (cal_of CG) r = Ret (date_of CG r)) by (apply at_jdn_ok; [exact I|exact Hr]).
   pose proof (date_of_CJ (r - 1)) as DJ. pose proof (date_of_CG r) as DG.
   pose proof (jlabel_valid (r - 1)) as VJ. pose proof (glabel_valid r) as VG.
   destruct (jlabel (r - 1)) as [[py pm] pd] eqn:EP. destruct (glabel r) as [[qy qm] qd] eqn:EQ.
   destruct VJ as [[PM PD] JP]. destruct VG as [[QM QD] JQ].
-  rewrite DJ, DG. unfold Date_ordinal, Date_year. cbn [bind Date_f_year Date_f_ordinal Date_f_month Date_f_day].
+  rewrite DJ in AJ1. rewrite DG in AG1. clear DJ DG.
   assert (PY : jyear (r - 1) = py). { apply jyear_unique. unfold jdn_j in JP. pose proof (cum_bounds (jleap py) pm PM). pose proof (J0_step py). lia. }
   assert (QY : gyear r = qy). { apply gyear_unique. unfold jdn_g in JQ. pose proof (cum_bounds (gleap qy) qm QM). pose proof (G0_step qy). lia. }
-  rewrite PY, QY.
+  rewrite PY in AJ1. rewrite QY in AG1.
   assert (HQY : in_i32 qy) by (rewrite <- QY; apply i32_year_g; exact Hr).
   assert (HPY : in_i32 py /\ in_i32 (py + 1)).
   { pose proof (jyear_spec (r - 1)) as S. rewrite PY in S. unfold J0 in S. split; range. }
-  rewrite !i32_rem_pos by lia. cbn [bind]. rewrite Month_lt_ok. rewrite Month_discr_of_Z by exact QM. cbn [Month_discr].
   (* the ordinal of the first Gregorian label in the Julian year *)
   pose proof (cum_bounds (gleap qy) qm QM) as CGb. pose proof (cum_bounds (jleap qy) qm QM) as CJb.
   pose proof (cum_after_feb (jleap qy) qm QM) as AJ. pose proof (cum_after_feb (gleap qy) qm QM) as AG.
   pose proof (ylen_bounds (jleap qy)). pose proof (ylen_bounds (gleap qy)). pose proof (mlen_g_le_j qy qm) as MGJ.
   set (jord := cum (jleap qy) qm + qd).
   assert (JO : 1 <= jord <= 366) by (subst jord; lia).
-  assert (Adj : forall k : Z -> M (Result Calendar ReformingError),
-     (t19 <- (if Z.rem qy 100 =? 0 then (Ret (negb (Z.rem qy 400 =? 0))) else Ret false);;
-      t20 <- (if t19 then Ret (2 <? qm) else Ret false);;
-      if t20 then ordinal <- u32_add (r - G0 qy + 1) 1;; k ordinal else k (r - G0 qy + 1)) = k jord).
-  { intros k. unfold jdn_g in JQ. unfold after_feb, jleap, gleap in *.
-    destruct (Z.eqb_spec (Z.rem qy 100) 0) as [C100|C100]; cbn [bind].
-    - destruct (Z.eqb_spec (Z.rem qy 400) 0) as [C400|C400]; cbn [bind negb].
-      + f_equal. subst jord. unfold jleap, gleap.
-        replace (qy mod 4 =? 0) with true in * by lia. replace (qy mod 100 =? 0) with true in * by lia. replace (qy mod 400 =? 0) with true in * by lia.
-        cbn [andb orb negb] in *. lia.
-      + destruct (Z.ltb_spec 2 qm); cbn [bind].
-        * rewrite u32_add_ok by range. cbn [bind]. f_equal. subst jord. unfold jleap, gleap.
-          replace (qy mod 4 =? 0) with true in * by lia. replace (qy mod 100 =? 0) with true in * by lia. replace (qy mod 400 =? 0) with false in * by lia.
-          replace (3 <=? qm) with true in * by lia. cbn [andb orb negb] in *. lia.
-        * f_equal. subst jord. unfold jleap, gleap.
-          replace (3 <=? qm) with false in * by lia. rewrite !andb_false_r in *. lia.
-    - f_equal. subst jord. unfold jleap, gleap.
-      destruct (Z.eqb_spec (qy mod 4) 0), (Z.eqb_spec (qy mod 100) 0), (Z.eqb_spec (qy mod 400) 0), (Z.leb_spec 3 qm); cbn [andb orb negb] in *; lia. }
-  rewrite Adj. clear Adj.
-  (* get_jdn in the Julian calendar = Julian day number of the first Gregorian label *)
-  assert (GJ : Calendar_get_jdn (cal_of CJ) qy jord = Ret (jdn_result (jdn_j qy qm qd))).
-  { unfold Calendar_get_jdn. cbv zeta. rewrite Year.gap_ok. cbn [bind]. change (Calendar_f_0 (cal_of CJ)) with inner_Calendar_Julian. cbn [orb].
-    rewrite julian2jdn_ok by assumption. cbn [bind]. unfold jdn_result, jdn_j. subst jord. replace (J0 qy + (cum (jleap qy) qm + qd) - 1) with (J0 qy + cum (jleap qy) qm + qd - 1) by lia. reflexivity. }
-  rewrite GJ. cbn [bind]. clear GJ.
+  assert (AdjE : ((Z.rem qy 100 =? 0) = true /\ (Z.rem qy 400 =? 0) = false /\ (2 <? qm) = true -> jord = r - G0 qy + 1 + 1) /\
+                 ((Z.rem qy 100 =? 0) = false \/ (Z.rem qy 400 =? 0) = true \/ (2 <? qm) = false -> jord = r - G0 qy + 1)).
+  { unfold jdn_g in JQ. unfold after_feb in *. subst jord. unfold jleap, gleap in *.
+    destruct (Z.eqb_spec (Z.rem qy 100) 0), (Z.eqb_spec (Z.rem qy 400) 0), (Z.ltb_spec 2 qm),
+             (Z.eqb_spec (qy mod 4) 0), (Z.eqb_spec (qy mod 100) 0), (Z.eqb_spec (qy mod 400) 0), (Z.leb_spec 3 qm);
+      cbn [andb orb negb] in *; split; intros; try lia; intuition (try discriminate; try lia). }
+  destruct AdjE as [AdjT AdjF].
+  assert (ORD : 1 <= r - G0 qy + 1 <= 366) by (unfold jdn_g in JQ; lia).
+  assert (ORDP : 1 <= r - 1 - J0 py + 1 <= 366) by (unfold jdn_j in JP; pose proof (cum_bounds (jleap py) pm PM); pose proof (ylen_bounds (jleap py)); lia).
+  (* get_jdn in the Julian calendar, at that ordinal = the Julian day number of the first Gregorian label *)
+  assert (JOy : jord <= ylen (jleap qy)).
+  { subst jord. lia. }
+  assert (GJ : forall o, o = jord -> Calendar_get_jdn (cal_of CJ) qy o = Ret (jdn_result (jdn_j qy qm qd))).
+  { intros o ->. rewrite get_jdn_julian by (try assumption; unfold year_count; cbn [old_days new_days]; lia).
+    unfold jdn_of_ordinal, jdn_j. cbn [old_days]. replace (jord <=? ylen (jleap qy)) with true by lia. subst jord. do 2 f_equal. lia. }
   pose proof (delta_eq qy qm qd QM) as DE. pose proof (delta_pos qy qm QM) as DP.
   assert (V300 : valid_md (gleap 300) 3 1) by (unfold valid_md; cbn; lia).
   assert (VMax : valid_md (gleap 5874777) 10 17) by (unfold valid_md; cbn; lia).
   assert (VMaxJ : valid_md (jleap 5874777) 10 17) by (unfold valid_md; cbn; lia).
   assert (VQ : valid_md (gleap qy) qm qd) by (split; assumption).
   assert (VQJ : valid_md (jleap qy) qm qd) by (apply valid_g_j; exact VQ).
-  unfold jdn_result, chk_jdn.
+  assert (R100 : i32_rem qy 100 = Ret (Z.rem qy 100)) by (apply i32_rem_pos; lia).
+  assert (R400 : i32_rem qy 400 = Ret (Z.rem qy 400)) by (apply i32_rem_pos; lia).
+  assert (MLT : Month_lt Month_February (month_of_Z qm) = Ret (2 <? qm)).
+  { rewrite Month_lt_ok. rewrite Month_discr_of_Z by exact QM. reflexivity. }
+  (* evaluation of the generated function under the facts in the context *)
+  Ltac rf_norm :=
+    repeat first
+    [ progress cbn [bind negb andb orb Date_f_year Date_f_ordinal Date_f_month Date_f_day inner_Date_f_ordinal]
+    | progress cbv zeta
+    | progress unfold Date_ordinal, Date_year, Date_month, Date_day
+    | match goal with
+      | H : Calendar_at_jdn _ _ = Ret _ |- _ => rewrite H
+      | H : i32_rem _ _ = Ret _ |- _ => rewrite H
+      | H : Month_lt _ _ = Ret _ |- _ => rewrite H
+      | H : forall o, o = _ -> Calendar_get_jdn _ _ o = _ |- _ => rewrite H by lia
+      | H : inner_GapKind_for_dates _ _ _ _ = Ret _ |- _ => rewrite H
+      end
+    | rewrite u32_add_ok by range
+    | rewrite u32_sub_ok by range
+    | progress cmp_simpl
+    | rf_ifd ].
   destruct (Z.ltb_spec r 1830692) as [Low|NotLow].
   - (* not skipping forward *)
     assert (D0 : delta qy qm <= 0).
@@ -98,39 +123,32 @@ Proof.
       destruct L as [L|L].
       - apply (jdn_g_lex 300 3 1 qy qm qd V300 VQ) in L. change (jdn_g 300 3 1) with 1830692 in L. lia.
       - injection L as E1 E2 E3. rewrite E1, E2, E3 in JQ. change (jdn_g 300 3 1) with 1830692 in JQ. lia. }
-    destruct (in_i32b (jdn_j qy qm qd)) eqn:Fit.
-    + replace (jdn_j qy qm qd <=? r) with true by lia. reflexivity.
-    + assert (DB : -100000 < delta qy qm).
-      { pose proof (gyear_spec r) as GSp. rewrite QY in GSp.
-        assert (-5884400 <= qy) by (unfold G0 in GSp; range).
-        unfold delta, J0, G0, after_feb. destruct (jleap qy && (3 <=? qm)), (gleap qy && (3 <=? qm)); lia. }
-      replace (r <? 0) with true; [reflexivity|]. unfold in_i32b, in_i32, i32_min, i32_max in *. lia.
+    assert (DB : -100000 < delta qy qm).
+    { pose proof (gyear_spec r) as GSp. rewrite QY in GSp.
+      assert (-5884400 <= qy) by (unfold G0 in GSp; range).
+      unfold delta, J0, G0, after_feb. destruct (jleap qy && (3 <=? qm)), (gleap qy && (3 <=? qm)); lia. }
+    unfold jdn_result, chk_jdn, in_i32b in GJ. unfold i32_min, i32_max in *.
+    rf_norm; try reflexivity; exfalso; lia.
   - destruct (Z.ltb_spec 2147439588 r) as [High|NotHigh].
     + (* the Julian date of the first Gregorian label is beyond the 32-bit range *)
       assert (L : lex_lt (5874777, 10, 17) (qy, qm, qd)).
       { apply (jdn_g_lex 5874777 10 17 qy qm qd VMax VQ). change (jdn_g 5874777 10 17) with 2147439588. lia. }
       apply (jdn_j_lex 5874777 10 17 qy qm qd VMaxJ VQJ) in L. change (jdn_j 5874777 10 17) with 2147483647 in L.
-      replace (in_i32b (jdn_j qy qm qd)) with false by (unfold in_i32b, i32_min, i32_max; lia).
-      replace (r <? 0) with false by lia. reflexivity.
+      unfold jdn_result, chk_jdn, in_i32b in GJ. unfold i32_min, i32_max in *.
+      rf_norm; try reflexivity; exfalso; lia.
     + (* accepted *)
       assert (VR : ValidR r) by (unfold ValidR; lia).
       destruct (gap_info r VR) as (py' & pm' & pd' & qy' & qm' & qd' & GI).
       pose proof (gi_pre _ _ _ _ _ _ _ GI) as E1. pose proof (gi_post _ _ _ _ _ _ _ GI) as E2. rewrite EP in E1. rewrite EQ in E2.
       inversion E1; inversion E2; subst py' pm' pd' qy' qm' qd'.
       pose proof (gi_fwd _ _ _ _ _ _ _ GI). pose proof (gi_fit _ _ _ _ _ _ _ GI).
-      replace (in_i32b (jdn_j qy qm qd)) with true by (unfold in_i32b, i32_min, i32_max; lia).
-      replace (jdn_j qy qm qd <=? r) with false by lia.
-      rewrite for_dates_ok by (try assumption; tauto). cbn [bind].
+      assert (FD : inner_GapKind_for_dates py (month_of_Z pm) qy (month_of_Z qm) = Ret (gap_kind py pm qy qm)) by (apply for_dates_ok; tauto).
       pose proof (py_le_qy _ _ _ _ _ _ _ GI) as PQ. pose proof (r_year_bounds _ _ _ _ _ _ _ GI) as [[A B] [C D]].
       pose proof (G0_step qy). pose proof (J0_step py).
-      unfold cal_of. unfold gap_of. rewrite EP, EQ. unfold gap_kind.
+      change (cal_of (CR r)) with (mkCalendar (inner_Calendar_Reforming r (gap_of r))). unfold gap_of. rewrite EP, EQ. unfold gap_kind in *.
+      unfold jdn_result, chk_jdn, in_i32b in GJ. unfold i32_min, i32_max in *.
       destruct (Z.eqb_spec py qy) as [E|N].
       * pose proof (same_year_gap _ _ _ _ _ _ _ GI E) as SG. rewrite E in *.
-        assert (KK : (match (if pm =? qm then inner_GapKind_IntraMonth else inner_GapKind_CrossMonth) with
-                      | inner_GapKind_IntraMonth | inner_GapKind_CrossMonth => true | _ => false end) = true) by (destruct (pm =? qm); reflexivity).
-        destruct (pm =? qm); cbn [inner_Date_f_ordinal];
-          rewrite u32_add_ok by range; cbn [bind]; rewrite u32_sub_ok by range; cbn [bind];
-          rewrite u32_sub_ok by range; cbn [bind]; rewrite u32_sub_ok by range; cbn [bind];
-          do 4 f_equal; lia.
-      * destruct (py + 1 =? qy); cbn [inner_Date_f_ordinal]; rewrite u32_sub_ok by range; cbn [bind]; do 4 f_equal; lia.
+        rf_norm; try reflexivity; try (repeat f_equal; lia); exfalso; lia.
+      * rf_norm; try reflexivity; try (repeat f_equal; lia); exfalso; lia.
 Qed.
